@@ -468,22 +468,15 @@ func modelMatches(s *site, y, im string) bool {
 // ---------- classes of known divergences (decidable on the input) ----------
 
 func classOf(s *site, x, y string) string {
-	// (the classes of the repaired findings F02, F02-2, F02-3, F02-5, F02-6, F02-7, F02-8 are gone: a divergence on a
-	// negative shift count, a uintptr ++/--, an interface destination or a -0 argument is a VIOLATION again)
+	// (the classes of the repaired findings F02, F02-2 … F02-8, F02-14 are gone: a divergence on a negative shift count, a
+	// uintptr ++/--, an interface destination, a -0 argument, `x / 0.0`, `(-4) << b` is a VIOLATION again)
 	if isIfaceCtx(s.Ctx) && s.resultKind().Under != "" {
 		return "defined-type-dynamic-type"
 	}
-	// F02-14: `var e interface{} = (-4) << b`, `return (-4) << b` into an interface result: the left operand is a
-	// parenthesised untyped constant (the generator parenthesises exactly the negative literals)
-	if o := s.op(); o.Group == "shift" && s.Form == "cl" && s.CKind == "lit" && strings.HasPrefix(s.CL, "-") &&
-		(s.Ctx == "ifacevar" || s.Ctx == "ifaceret" || s.Ctx == "ifaceret2") {
-		return "shift-paren-const-left-iface-decl"
-	}
-	if s.Op == "quo" && (s.kind().Class == "float" || s.kind().Class == "complex") && (s.Form == "cr" || s.Form == "cc") && isZeroConst(s.CR) {
-		return "float-div-const-zero"
-	}
-	if s.Op == "conv" && s.K2 == "string" && s.Form == "c" && s.kind().isInt() {
-		if v, ok := new(big.Int).SetString(s.CL, 10); ok && (v.Sign() < 0 || v.Cmp(big.NewInt(0x10FFFF)) > 0 || v.Cmp(big.NewInt(0xD800)) >= 0 && v.Cmp(big.NewInt(0xDFFF)) <= 0) {
+	// (F02-4 `x / 0.0` and F02-14 `var e interface{} = (-4) << b` are repaired, 03fb34b and 4adaaf3: no class any more)
+	// F02-9, what is left of it: an UNTYPED integer constant outside the int32 range is truncated to its low 32 bits
+	if s.Op == "conv" && s.K2 == "string" && s.Form == "c" && s.CKind != "typed" && s.kind().isInt() {
+		if v, ok := new(big.Int).SetString(s.CL, 10); ok && (v.Cmp(big.NewInt(math.MinInt32)) < 0 || v.Cmp(big.NewInt(math.MaxInt32)) > 0) {
 			return "conv-const-int-to-string"
 		}
 	}
@@ -493,7 +486,8 @@ func classOf(s *site, x, y string) string {
 	if s.kind().Class == "float" && s.Form == "cc" && (s.Op == "mul" || s.Op == "quo") && (isZeroConst(s.CL) || isZeroConst(s.CR)) {
 		return "const-fold-float-zero"
 	}
-	if s.kind().Class == "complex" && (s.Form == "c" || s.Form == "cc") {
+	// F02-11, what is left of it: zero signs / last-bit differences of -c, c1*c2, c1/c2 on typed complex constants
+	if s.kind().Class == "complex" && (s.Form == "c" && s.Op == "neg" || s.Form == "cc" && (s.Op == "mul" || s.Op == "quo")) {
 		return "const-complex-typed"
 	}
 	return ""
@@ -502,7 +496,8 @@ func classOf(s *site, x, y string) string {
 // isIfaceCtx: contexts whose destination is an interface value (the result is printed as %T:%v).
 func isIfaceCtx(ctx string) bool { return strings.HasPrefix(ctx, "iface") }
 
-// watched names the input classes of the REPAIRED findings (F02, F02-2, F02-3, F02-5, F02-7, F02-8): they are no
+// watched names the input classes of the REPAIRED findings (F02, F02-2, F02-3, F02-4, F02-5, F02-7, F02-8, F02-14 and
+// the repaired parts of F02-9, F02-11): they are no
 // longer suppressed, only counted, so that the evidence shows the default stream still contains them.
 func watched(s *site, x, y string) []string {
 	var out []string
@@ -522,6 +517,20 @@ func watched(s *site, x, y string) []string {
 		case o.Group == "cmp":
 			out = append(out, "F02-8:iface-dest-comparison/"+s.Ctx)
 		}
+	}
+	if s.Op == "quo" && (s.kind().Class == "float" || s.kind().Class == "complex") && (s.Form == "cr" || s.Form == "cc") && isZeroConst(s.CR) {
+		out = append(out, "F02-4:float-div-const-zero/"+s.Form)
+	}
+	if o.Group == "shift" && s.Form == "cl" && s.CKind == "lit" && strings.HasPrefix(s.CL, "-") && (s.Ctx == "ifacevar" || s.Ctx == "ifaceret" || s.Ctx == "ifaceret2") {
+		out = append(out, "F02-14:shift-paren-const-left/"+s.Ctx)
+	}
+	if s.Op == "conv" && s.K2 == "string" && s.Form == "c" && s.kind().isInt() {
+		if v, ok := new(big.Int).SetString(s.CL, 10); ok && (v.Sign() < 0 || v.Cmp(big.NewInt(0x10FFFF)) > 0 || v.Cmp(big.NewInt(0xD800)) >= 0 && v.Cmp(big.NewInt(0xDFFF)) <= 0) {
+			out = append(out, "F02-9:string-of-invalid-rune-constant/"+s.CKind)
+		}
+	}
+	if s.kind().Class == "complex" && (s.Form == "c" || s.Form == "cc") {
+		out = append(out, "F02-11:typed-complex-constant/"+s.Op)
 	}
 	if strings.HasPrefix(s.Ctx, "ret") && (negZero(s.kind(), x) || negZero(s.kind2(), y)) {
 		w := "F02-5:negzero-argument/" + s.Ctx
